@@ -34,6 +34,7 @@ struct vp_in {
     uint64_t fault_ret;
     uint8_t fault_xfer;
     uint8_t item;
+    uint8_t stale[sizeof(PersistentStorage)];
 };
 VP_DECLARE_INPUT();
 
@@ -44,6 +45,7 @@ static void scenario(const struct vp_in *in, uint8_t kind, uint8_t aux)
     struct c10_cfg cfg = in->cfg;
     if (!c10_begin(&cfg, kind, aux, in->medium))
         return;
+    c10_set_stale(in->stale);
 
     uint8_t dst[DSTSZ];
     for (size_t i = 0; i < DSTSZ; ++i)
